@@ -1,9 +1,11 @@
 import Srctools.Wire
 import Srctools.Model.C06
+import Srctools.Model.C06Text
 /-! Driver for the C06 model (VMF export / parse at the keyvalues-tree level).
 requests (text = arrays of code points, KV = [0,name,value] | [1,name,[children]]):
   {"op":"export","opts":{"minimal":b,"multiblend":b,"inc":b},"map":MAP}  → {"tree":[KV…]}
   {"op":"parse","preserve":b,"tree":[KV…]}                                → {"ok":MAP} | {"err":"name"}
+  {"op":"text","opts":…,"map":MAP}                                         → {"text":[cp…]}   (exportText)
   {"op":"project","opts":…,"map":MAP}                                     → {"map":MAP}
   {"op":"roundtrip","opts":…,"map":MAP}   parseTree true (exportTree o m)  → {"ok":MAP} | {"err":…}
 MAP is the structure produced by harness/c06_gen.dump_map.
@@ -231,6 +233,10 @@ def handle (j : Json) : Except String Json := do
     let o ← optsOf (← fld j "opts")
     let m ← mapOf (← fld j "map")
     pure (Json.mkObj [("tree", jarr ((exportTree o m).map jkv))])
+  | "text" =>
+    let o ← optsOf (← fld j "opts")
+    let m ← mapOf (← fld j "map")
+    pure (Json.mkObj [("text", jstr (exportText o m))])
   | "parse" =>
     let p ← fBool j "preserve"
     let t ← (← fArr j "tree").mapM kvOf
